@@ -5,6 +5,7 @@ import (
 	"go/ast"
 	"go/token"
 	"go/types"
+	"os"
 	"runtime/debug"
 	"sort"
 	"strings"
@@ -51,6 +52,9 @@ func (e *Engine) verifyFunc(fi *funcInfo, c *FuncContract) (res *FuncResult) {
 		if r := recover(); r != nil {
 			if ee, ok := r.(engineError); ok {
 				res.EngineErr = ee.msg
+				if os.Getenv("GOVC_DEBUG") != "" {
+					res.EngineErr += "\n" + string(debug.Stack())
+				}
 			} else {
 				res.EngineErr = fmt.Sprintf("%v\n%s", r, debug.Stack())
 			}
